@@ -143,7 +143,8 @@ impl Inner {
         unsafe {
             let parsed: String = crate::from_slice_unchecked(raw).ok()?;
             let parsed = Arc::into_raw(Arc::new(parsed)) as *mut ();
-            match self.unescaped.compare_exchange_weak(
+            // not use the weak version here: it may fail spuriously and return the null pointer
+            match self.unescaped.compare_exchange(
                 ptr,
                 parsed,
                 Ordering::AcqRel,
@@ -151,7 +152,8 @@ impl Inner {
             ) {
                 Ok(_) => Some(&*(parsed as *const String)),
                 Err(e) => {
-                    Arc::decrement_strong_count(parsed);
+                    // release our own decoding with the type it was allocated with
+                    Arc::decrement_strong_count(parsed as *const String);
                     Some(&*(e as *const String))
                 }
             }
